@@ -70,6 +70,33 @@ pub fn scenarios() -> Vec<Scenario> {
     ]
 }
 
+/// Thorough tier: every request kind x {request then edit, edit then request} as two-message
+/// scenarios (the handlers differ in how long they hold the store and the snapshot).
+fn product_scenarios() -> Vec<Scenario> {
+    let v1 = "pub fn aaaa() -> Int {\n  bbbb(1)\n}\n\nfn bbbb(x) {\n  x + 1\n}\n";
+    let td = || json!({"uri": doc_uri()});
+    let kinds: Vec<(&'static str, &'static str, &'static str, Value)> = vec![
+        ("hover|edit", "edit|hover", "textDocument/hover", tdp(4, 4)),
+        ("definition|edit", "edit|definition", "textDocument/definition", tdp(1, 3)),
+        ("references|edit", "edit|references", "textDocument/references", json!({"textDocument": td(), "position": {"line": 4, "character": 4}, "context": {"includeDeclaration": true}})),
+        ("highlight|edit", "edit|highlight", "textDocument/documentHighlight", tdp(4, 4)),
+        ("completion|edit", "edit|completion", "textDocument/completion", tdp(1, 3)),
+        ("signatureHelp|edit", "edit|signatureHelp", "textDocument/signatureHelp", tdp(1, 7)),
+        ("prepareRename|edit", "edit|prepareRename", "textDocument/prepareRename", tdp(4, 4)),
+        ("rename|edit", "edit|rename", "textDocument/rename", json!({"textDocument": td(), "position": {"line": 4, "character": 4}, "newName": "cccc"})),
+        ("tokens|edit", "edit|tokens", "textDocument/semanticTokens/full", json!({"textDocument": td()})),
+        ("tokensRange|edit", "edit|tokensRange", "textDocument/semanticTokens/range", json!({"textDocument": td(), "range": {"start": {"line": 0, "character": 0}, "end": {"line": 3, "character": 0}}})),
+        ("syntaxTree|edit", "edit|syntaxTree", "glas/syntaxTree", json!({"textDocument": td()})),
+    ];
+    let mut out = vec![];
+    for (n1, n2, method, params) in kinds {
+        // the edit appends a line at the end: positions of the request stay meaningful in both versions
+        out.push(Scenario { name: n1, v1, msgs: vec![Msg::Req { method, params: params.clone() }, edit(7, 0, 7, 0, "// tail\n")], v2: None });
+        out.push(Scenario { name: n2, v1, msgs: vec![edit(7, 0, 7, 0, "// tail\n"), Msg::Req { method, params }], v2: None });
+    }
+    out
+}
+
 #[derive(Clone, Debug)]
 pub struct ChoicePoint {
     pub enabled: Vec<String>,
@@ -583,7 +610,10 @@ pub fn run(tier: Tier) -> i32 {
     }
     let bound = tier.pick(1usize, 2usize);
     // the four-message scenario multiplies the schedule count by ~10: thorough tier only
-    let scs: Vec<Scenario> = scenarios().into_iter().filter(|s| tier == Tier::Thorough || s.msgs.len() <= 3).collect();
+    let mut scs: Vec<Scenario> = scenarios().into_iter().filter(|s| tier == Tier::Thorough || s.msgs.len() <= 3).collect();
+    if tier == Tier::Thorough {
+        scs.extend(product_scenarios());
+    }
     let mut distinct_traces: BTreeSet<String> = BTreeSet::new();
     let mut outcome_classes: BTreeSet<String> = BTreeSet::new();
     let mut total_runs = 0u64;
@@ -678,7 +708,8 @@ pub fn run(tier: Tier) -> i32 {
 
 pub fn replay(w: &Value) -> Vec<String> {
     let _ = std::fs::create_dir_all(crate::core::verif_root().join(".scratch/c16/ws"));
-    let scs = scenarios();
+    let mut scs = scenarios();
+    scs.extend(product_scenarios());
     let Some(sc) = scs.iter().find(|s| Some(s.name) == w["scenario"].as_str()) else { return vec!["unknown scenario".into()] };
     let choices: Vec<usize> = w["choices"].as_array().map(|a| a.iter().filter_map(|x| x.as_u64()).map(|x| x as usize).collect()).unwrap_or_default();
     let seq = match sequential(sc) {
